@@ -38,9 +38,41 @@ impl<C: Configuration> IngredientImpl<C> {
         id: Id,
         memo_ingredient_index: MemoIngredientIndex,
     ) -> Option<&'db Memo<C>> {
+        // Hook H10: a load that sees no memo is recorded (and answered) here; once a memo
+        // exists the entry never becomes empty again, so the load below then sees one too.
+        #[cfg(salsa_rs_salsa_verif)]
+        if crate::verif_proto::fetch_on() {
+            let _order = crate::verif_proto::order_guard();
+            if zalsa
+                .memo_table_for::<C::SalsaStruct<'_>>(id)
+                .get::<Memo<C>>(memo_ingredient_index)
+                .is_none()
+            {
+                crate::verif_proto::record_fetch(&[
+                    crate::verif_proto::P::S("probe"),
+                    crate::verif_proto::P::T(crate::sync::thread::current().id()),
+                    crate::verif_proto::P::K(self.database_key_index(id)),
+                    crate::verif_proto::P::S("none"),
+                ]);
+                return None;
+            }
+        }
+        #[cfg(salsa_rs_salsa_verif)]
+        let _order = crate::verif_proto::order_guard();
         let memo = zalsa
             .memo_table_for::<C::SalsaStruct<'_>>(id)
             .get(memo_ingredient_index)?;
+        // Hook H10: the load of the memo POINTER; the `probe` that follows describes the later
+        // load of `verified_at` of the object loaded here (which may have been superseded).
+        #[cfg(salsa_rs_salsa_verif)]
+        {
+            crate::verif_proto::record_fetch(&[
+                crate::verif_proto::P::S("load"),
+                crate::verif_proto::P::T(crate::sync::thread::current().id()),
+                crate::verif_proto::P::K(self.database_key_index(id)),
+            ]);
+            drop(_order);
+        }
         // SAFETY: The memo table owns this allocation for at least `'db`.
         Some(unsafe { memo.as_ref() })
     }
@@ -256,7 +288,16 @@ impl MemoHeader {
             })
         });
 
+        #[cfg(salsa_rs_salsa_verif)]
+        let _order = crate::verif_proto::order_guard();
         self.verified_at.store(zalsa.current_revision());
+        #[cfg(salsa_rs_salsa_verif)]
+        crate::verif_proto::record_fetch(&[
+            crate::verif_proto::P::S("mark"),
+            crate::verif_proto::P::T(crate::sync::thread::current().id()),
+            crate::verif_proto::P::K(database_key_index),
+            crate::verif_proto::P::S(&zalsa.current_revision().as_usize().to_string()),
+        ]);
     }
 
     pub(super) fn mark_outputs_as_verified(
